@@ -7,7 +7,7 @@ from props import c03
 
 PROPERTY = 'C02'
 LEVEL = 'exploration'
-RULE = ('(i) G1 programs and repository snippets x drop_semi in {False, True}; (ii) adjacency product, enumerated: '
+RULE = ('(i) G1 programs and repository snippets x drop_semi in {False, True} x (for sources with comments) parsed with or without comment capture; (ii) adjacency product, enumerated (every fifth case also with a captured block comment in every gap): '
         'slot templates (every binary/prefix/postfix/keyword operator, return/throw/case/new/var/else/do-while/'
         'typeof/void/delete/in/instanceof, function and accessor names, member access on every literal kind, division, '
         'conditional, labels, statements after ) } else do) x operands chosen by first/last character class (ASCII and '
@@ -29,11 +29,11 @@ def is_hazard_char(c):
     return c in HAZARD or ord(c) > 127
 
 
-def check(acc, opens, src, drop_semi, origin):
-    tree, ref = unparse.source_in_domain(acc, src)
+def check(acc, opens, src, drop_semi, origin, with_comments=False):
+    tree, ref = unparse.source_in_domain(acc, src, with_comments=with_comments)
     if tree is None:
         return None
-    case = {'text': src, 'drop_semi': drop_semi, 'origin': origin}
+    case = {'text': src, 'drop_semi': drop_semi, 'origin': origin, 'with_comments': with_comments}
     try:
         t0 = canon.canon_calmjs(tree)
         m = unparse.minify(tree, drop_semi=drop_semi)
@@ -115,7 +115,7 @@ def classify(src, m, drop_semi, parser_failure=None):
 
 
 def replay(case, acc):
-    check(acc, (), case['text'], case['drop_semi'], case.get('origin', 'replay'))
+    check(acc, (), case['text'], case['drop_semi'], case.get('origin', 'replay'), case.get('with_comments', False))
 
 
 from harness.shrink import text_shrinker  # noqa: E402
@@ -181,18 +181,22 @@ def run_shard(shard):
     acc = Acc()
     opens = shard['open_signatures']
 
-    def one(src, origin, sample=True):
+    def one(src, origin, sample=True, wc=False):
         for ds in (False, True):
-            info = check(acc, opens, src, ds, origin)
+            info = check(acc, opens, src, ds, origin, wc)
             nt = bool(info) and (info.get('touching', 0) >= 1 or (ds and info.get('dropped', 0) >= 1))
-            acc.case((src, ds), nt, {'source': src, 'drop_semi': ds, 'output': info['output']}
+            acc.case((src, ds, wc), nt, {'source': src, 'drop_semi': ds, 'with_comments': wc, 'output': info['output']}
                      if (info and sample) else None)
+            acc.label('with_comments_%s' % wc)
             if info:
                 acc.label('touching_%d' % min(info.get('touching', 0), 5))
                 if ds:
                     acc.label('dropped_semis_%d' % min(info.get('dropped', 0), 5))
     if shard['kind'] == 'g1':
-        run_given(gen_program.program_strategy(), lambda p: one(p['text'], 'g1'), shard['n'], shard['hseed'], acc)
+        # a tree parsed with comment capture carries Comments nodes; the minifier prints nothing for them
+        run_given(st.tuples(gen_program.program_strategy(), st.booleans()),
+                  lambda x: one(x[0]['text'], 'g1', wc=x[1] and ('/*' in x[0]['text'] or '//' in x[0]['text'])),
+                  shard['n'], shard['hseed'], acc)
     elif shard['kind'] == 'corpus':
         for src in c03.load_corpus():
             one(src, 'corpus')
@@ -207,6 +211,9 @@ def run_shard(shard):
                 continue
             n += 1
             one(src, 'adjacency', sample=(n % 60 == 0))
+            if n % 5 == 0 and '\n' not in src:
+                # the same slot with a captured comment at every gap of the source
+                one(src.replace(' ', ' /*c*/ '), 'adjacency_commented', sample=(n % 300 == 0), wc=True)
         acc.extra['adjacency_enumerated'] = n
     return acc.result()
 
